@@ -166,7 +166,7 @@ Definition sev_eqb (a b : sev) : bool :=
   end.
 
 Definition refused (x : sexit) : bool :=
-  match x with XSU SU_bad_metadata | XSS SS_bad_metadata => true | _ => false end.
+  match x with XSU SU_bad_metadata | XSU SU_undispatched | XSS SS_bad_metadata => true | _ => false end.
 Definition client_stream (x : sexit) : bool := match x with XCS _ _ => true | _ => false end.
 
 Definition ev_is_end (e : sev) : bool := match e with End _ => true | _ => false end.
